@@ -501,6 +501,8 @@ class Job:
                 rb = 1; b = 'ASSERT-FAIL UB in code under test (ubsan trap)'
             if rb == 134 and 'Assertion' in b:  # SIGABRT from the code's own assert() in the bitcode build == ll___assert_fail in the generated C
                 rb = 1; b = 'ASSERT-FAIL assert() in code under test failed'
+            if rb == 134 and 'terminate called' in b and ra == 1 and 'uncaught exception escaped harness' in a:
+                rb = 1; b = a   # an exception escaping the harness entry: std::terminate in the bitcode build, pending-flag check in the generated C
             n += 1
             if (ra, a.strip()) != (rb, b.strip()):
                 raise Inconclusive('translator differential mismatch on seed %s: generated-C rc=%s out=%r vs bitcode rc=%s out=%r' % (s, ra, a[-300:], rb, b[-300:]))
@@ -631,6 +633,8 @@ def norm_trap(res):
     rc, out, a, b = res
     if rc in (-4, 132):
         return 1, out + 'ASSERT-FAIL UB in code under test (ubsan trap)\n', a, b
+    if rc in (-6, 134) and 'terminate called' in out:
+        return 1, out + 'ASSERT-FAIL uncaught exception escaped harness\n', a, b
     if rc in (-6, 134) and 'Assertion' in out:   # the code's own assert() aborted the native bitcode build
         return 1, out + 'ASSERT-FAIL assert() in code under test failed\n', a, b
     return res
